@@ -120,13 +120,12 @@ theorem valueToScsv_errIn {α} (allowed : List Err) (r : Except Err α) (h : Err
     · exact absurd he (hne)
     · exact this
 
-theorem validate_errIn (s : Schema) : ErrIn [.key] (validate s) := by
+theorem validate_errIn (s : Schema) : ErrIn [] (validate s) := by
   intro e h
-  have := (validate_error s e h).1
-  simp [this]
+  exact absurd h (fun h => validate_error s e h)
 
 theorem saveBody_errIn (E : FloatExt) (s : Schema) (data : List (List Val)) :
-    ErrIn [.value, .scsv, .key, .type, .index, .unmodelled] (saveBody E s data) := by
+    ErrIn [.value, .scsv, .type, .unmodelled] (saveBody E s data) := by
   unfold saveBody
   apply ErrIn.bind ((validate_errIn s).mono (by simp))
   intro ok
@@ -139,7 +138,7 @@ theorem saveBody_errIn (E : FloatExt) (s : Schema) (data : List (List Val)) :
     · exact ErrIn.error _ _ (by simp)
 
 theorem saveLines_errIn (E : FloatExt) (s : Schema) (data : List (List Val)) :
-    ErrIn [.scsv, .key, .type, .index, .unmodelled] (saveLines E s data) := by
+    ErrIn [.scsv, .type, .unmodelled] (saveLines E s data) := by
   unfold saveLines
   split
   · exact ErrIn.error _ _ (by simp)
@@ -147,10 +146,10 @@ theorem saveLines_errIn (E : FloatExt) (s : Schema) (data : List (List Val)) :
     · exact ErrIn.error _ _ (by simp)
     · exact valueToScsv_errIn _ _ (saveBody_errIn E s _) (by simp)
 
-/-- **`save_scsv` ends in SCSVError, KeyError (field without name), TypeError (delimiter that is
-not one character, `np.isnan(str)`), IndexError (no data columns) – never in a bare ValueError** -/
+/-- **`save_scsv` ends in SCSVError or TypeError (delimiter that is not one character, `np.isnan(str)`)
+– never in a bare ValueError, KeyError or IndexError** -/
 theorem save_errIn (E : FloatExt) (s : Schema) (data : List (List Val)) :
-    ErrIn [.scsv, .key, .type, .index, .unmodelled] (save E s data) :=
+    ErrIn [.scsv, .type, .unmodelled] (save E s data) :=
   ErrIn.map _ (saveLines_errIn E s data)
 
 /-! ### read side -/
@@ -296,7 +295,7 @@ theorem readBody_value (E : FloatExt) (s : Schema) (csvLines : List Str)
   · cases h
 
 theorem readLines_errIn (E : FloatExt) (lines : List Str) :
-    ErrIn [.scsv, .yaml, .type, .key, .csv, .stopIteration, .value, .unmodelled] (readLines E lines) := by
+    ErrIn [.scsv, .yaml, .type, .csv, .stopIteration, .value, .unmodelled] (readLines E lines) := by
   unfold readLines
   apply ErrIn.bind ((parseHeader_errIn _).mono (by simp))
   intro s
@@ -319,10 +318,7 @@ theorem readLines_value (E : FloatExt) (lines : List Str) (h : readLines E lines
     rw [hp] at h
     simp only [Except.bind] at h
     cases hv : validate s with
-    | error e =>
-      rw [hv] at h; simp at h; subst h
-      have := validate_errIn s _ hv
-      simp at this
+    | error e => exact absurd hv (fun h => validate_error s e h)
     | ok ok =>
       rw [hv] at h
       simp only at h
